@@ -242,22 +242,21 @@ def Inp.available (i : Inp) : Nat :=
   | some c => min (c - i.pos) i.data.length
   | none => i.data.length
 
-/-- `Socket_::readLine` loop: bytes up to LF (not included).
-Result: the line (`none` = SOCKET_BAD_LINE, more than 16001 bytes), the rest, and whether EOF was met before LF -/
-def readLineLoop : Nat → Bytes → Bytes → Option Bytes × Bytes × Bool
-  | _, acc, [] => (some acc.reverse, [], true)
+/-- `Socket_::readLine` loop: bytes up to LF (not included).  `n` = bytes consumed so far (= length of the line
+while no error).  Result: the line (`none` = SOCKET_BAD_LINE, more than 16001 bytes), the rest, the number of bytes
+consumed, and whether EOF was met before LF -/
+def readLineLoop : Nat → Bytes → Bytes → Option Bytes × Bytes × Nat × Bool
+  | n, acc, [] => (some acc.reverse, [], n, true)
   | n, acc, c :: t =>
-    if c == 10 then (some acc.reverse, t, false)
-    else if n > 16000 then (none, t, false)
+    if c == 10 then (some acc.reverse, t, n + 1, false)
+    else if n > 16000 then (none, t, n + 1, false)
     else readLineLoop (n + 1) (c :: acc) t
 
 def readLine (i : Inp) : Option Bytes × Inp :=
   if i.dead then (some [], i) else
-  let r := readLineLoop 0 [] i.data
-  let used := i.data.length - r.2.1.length
-  match r.1 with
-  | some l => (some l, { (i.advance used) with err := r.2.2 })
-  | none => (none, { (i.advance used) with err := true })
+  match readLineLoop 0 [] i.data with
+  | (some l, rest, used, eof) => (some l, { i with data := rest, pos := i.pos + used, err := eof })
+  | (none, rest, used, _) => (none, { i with data := rest, pos := i.pos + used, err := true })
 
 /-- `HttpMessage::readHeaders` -/
 def readHeadersLoop : Nat → Inp → Dic → Bytes → Bytes → Dic × Inp
